@@ -20,6 +20,11 @@ def known_finding(case, kind, detail):
     voted = {c for b in case["profile"]["ballots"] for g in (b.get("r") or []) for c in g}
     if case["rule"] in ("RandomDictator", "BoostedRandomDictator") and len(voted) < case["cfg"].get("m", 0):
         return "random-dictator-exhausted"
+    if case["rule"] == "STV":
+        if "Err(EIndex)" in d and case["cfg"].get("quota") == "hare":
+            return "stv-over-election"
+        if "Err(EZeroDiv)" in d and case["cfg"].get("quota") == "hare":
+            return "hare-zero-quota"
     return None
 
 
